@@ -37,6 +37,20 @@ func ffChoices(cfg config) []time.Duration {
 	return out
 }
 
+// genCtx draws the kind of context a call runs under (API with context).
+// pre: may the context be dead before the call (never for a bare del: what
+// becomes of a refused invalidation is outside the statement).
+func genCtx(r *kit.Rand, cfg config, pre bool) string {
+	if cfg.NoCtx {
+		return ctxBG
+	}
+	wPre := 0
+	if pre {
+		wPre = 3
+	}
+	return []string{ctxBG, ctxCancel, ctxDeadline, ctxValues, ctxPre}[r.Pick(30, 32, 20, 15, wPre)]
+}
+
 type genState struct {
 	dbFail bool
 	out    bool
@@ -106,6 +120,12 @@ func genOp(r *kit.Rand, cfg config, g *genState, faults bool, unreach bool) op {
 			}
 		}
 	}
+	switch o.K {
+	case "read", "index", "get", "set", "setexp", "write":
+		o.Ctx = genCtx(r, cfg, true)
+	case "del":
+		o.Ctx = genCtx(r, cfg, false)
+	}
 	return o
 }
 
@@ -142,13 +162,13 @@ func genTaint(r *kit.Rand, cfg config) []op {
 	var ops []op
 	for s := 0; s < nSlots; s++ {
 		if r.Chance(0.7) {
-			ops = append(ops, op{K: "write", Mut: "upsert", Slot: s, Name: names[s]})
+			ops = append(ops, op{K: "write", Mut: "upsert", Slot: s, Name: names[s], Ctx: genCtx(r, cfg, false)})
 		}
 	}
 	for i, n := 0, r.Range(3, 8); i < n; i++ {
 		o := genOp(r, cfg, g, false, false)
 		if o.K == "ff" || o.K == "del" {
-			o = op{K: "read", Slot: r.Intn(nSlots)}
+			o = op{K: "read", Slot: r.Intn(nSlots), Ctx: genCtx(r, cfg, false)}
 		}
 		ops = append(ops, o)
 	}
@@ -163,10 +183,13 @@ func genTaint(r *kit.Rand, cfg config) []op {
 		if r.Chance(0.15) {
 			w = op{K: "del", Slot: w.Slot, Name: w.Name}
 		}
+		// the write whose invalidation fails runs under the context of a request:
+		// mostly one that is dead by the time the cleaner retries
+		w.Ctx = []string{ctxBG, ctxCancel, ctxDeadline, ctxValues}[r.Pick(20, 45, 25, 10)]
 		ops = append(ops, w)
-		touched = append(touched, op{K: "read", Slot: w.Slot})
+		touched = append(touched, op{K: "read", Slot: w.Slot, Ctx: genCtx(r, cfg, false)})
 		if isSQL(cfg) {
-			touched = append(touched, op{K: "index", Name: w.Name}, op{K: "index", Name: names[w.Slot]})
+			touched = append(touched, op{K: "index", Name: w.Name, Ctx: genCtx(r, cfg, false)}, op{K: "index", Name: names[w.Slot], Ctx: genCtx(r, cfg, false)})
 		}
 	}
 	for i, n := 0, r.Intn(3); i < n; i++ {
